@@ -102,7 +102,7 @@ def run(ctx):
                 "row-wise, data()/nextRow(), specification's text) times on the real classes (quick tier: half of the variants "
                 "per case); non-trivial = at least one set() / two cells; "
                 "distinct = distinct case lines (hash)")
-    renv = {"C18_LOG": logbase}
+    renv = {"C18_LOG": logbase, "VERIF_TMP": ctx.tmp}
     if ctx.quick:
         renv["C18_HALF"] = "1"      # two of the four write paths / CSV variants per case (all of them in the thorough tier)
     ctx.replay(rep, cases, label="R/IniCsv-ini", timeout=ctx.pick(900, 5400), env=renv)
@@ -117,7 +117,7 @@ def run(ctx):
     _validate_logs(ctx, logbase, "V/IniCsv-csv-replayed", ctx.pick(6, 16))
     ctx.extra["generated"] = {**n, **{k: v for k, v in n2.items() if k.startswith("csv")}}
     # random executions
-    files = ctx.record(rec, ctx.pick(8, 64), ctx.pick(2000, 12000), "V/IniCsv")
+    files = ctx.record(rec, ctx.pick(8, 64), ctx.pick(2000, 12000), "V/IniCsv", env={"VERIF_TMP": ctx.tmp})
     ctx.validate_traces("Trace_IniCsv", "Trace_IniCsv", files, label="V/IniCsv", timeout=ctx.pick(600, 3000))
     ctx.assumptions += [
         "exhaustive within the constants of spec/MC_IniCsv_ini_%s.cfg and MC_IniCsv_csv_%s.cfg; beyond them only the recorded "
